@@ -8,7 +8,7 @@ fn c16_opreturn_printed_lines() {
     let suite = "c16_opreturn_printed_lines";
     let mut rng = Rng::new(16);
     let payloads: Vec<Vec<u8>> = vec![b"hello world".to_vec(), "gr\u{fc}\u{df}e \u{4e16}\u{754c}".as_bytes().to_vec(), vec![0x41; 75], vec![0x42; 76], vec![0x43; 80],
-        vec![0x44; 255], vec![0x45; 256], vec![0x46; 3000], vec![0xff, 0xfe, 0x41], vec![0xc3], vec![], b"a".to_vec(), b"  spaced  ".to_vec()];
+        vec![0x44; 255], vec![0x45; 256], vec![0x46; 3000], vec![0x47; 249], vec![0x48; 250], vec![0x49; 251], vec![0x4a; 252], vec![0x4b; 253], vec![0xff, 0xfe, 0x41], vec![0xc3], vec![], b"a".to_vec(), b"  spaced  ".to_vec()];
     let push = |d: &[u8], form: u8| -> Vec<u8> { let mut v = match form {
         0 => vec![d.len() as u8], 1 => vec![0x4c, d.len() as u8],
         2 => { let mut x = vec![0x4d]; x.extend_from_slice(&(d.len() as u16).to_le_bytes()); x }
@@ -37,7 +37,7 @@ fn c16_opreturn_printed_lines() {
         cases += 1;
         let last = e.unwrap_or(nblocks as u64);
         let blocks = match fetch_blocks(d.path(), coin, s, last, false) { Ok(b) => b, Err(m) => { fail(suite, "C16:chain_parses", coin, &m, "Ok"); continue; } };
-        let text = capture_stdout(|| { let mut cb = OpReturn; cb.on_start(s).unwrap(); for (i, b) in blocks.iter().enumerate() { cb.on_block(b, s + i as u64).unwrap(); } cb.on_complete(last).unwrap(); });
+        let text = capture_stdout(|| { let mut cb = OpReturn::new(&OpReturn::build_subcommand().get_matches_from(vec!["opreturn"])).unwrap(); cb.on_start(s).unwrap(); for (i, b) in blocks.iter().enumerate() { cb.on_block(b, s + i as u64).unwrap(); } cb.on_complete(last).unwrap(); });
         // expected lines, in chain order
         let mut want: Vec<String> = vec![];
         let mut mine: std::collections::HashSet<String> = std::collections::HashSet::new();
